@@ -111,6 +111,16 @@ pub fn exec_ovw(toks: &[&str]) -> String {
 
 pub fn exec(_verb: &str, toks: &[&str]) -> String {
     let req = format!("reg {}", toks.join(" "));
+    let mut cmd = Command::new(std::env::current_exe().unwrap());
+    cmd.env("VERIF_REG", &req);
+    let act = configure(&mut cmd, toks);
+    let out = cmd.output().expect("spawn child");
+    collect(&out, &act).0
+}
+
+/// Turns the run configuration of a request (tokens before the first `|`)
+/// into divan's command line / `DIVAN_*` environment; returns the action.
+pub fn configure(cmd: &mut Command, toks: &[&str]) -> String {
     let mut cfg: Vec<(&str, &str)> = Vec::new();
     for t in toks {
         if *t == "|" {
@@ -124,8 +134,6 @@ pub fn exec(_verb: &str, toks: &[&str]) -> String {
     let all = |k: &str| cfg.iter().filter(|(a, _)| *a == k).map(|(_, v)| *v).collect::<Vec<_>>();
     let act = get("act").unwrap_or("test");
     let via = get("via").unwrap_or("cli");
-    let mut cmd = Command::new(std::env::current_exe().unwrap());
-    cmd.env("VERIF_REG", &req);
     for (k, _) in std::env::vars() {
         if k.starts_with("DIVAN_") || k == "NEXTEST" {
             cmd.env_remove(k);
@@ -191,15 +199,15 @@ pub fn exec(_verb: &str, toks: &[&str]) -> String {
                 }
             }
         };
-        opt(&mut cmd, "o.sc", "sample-count", "DIVAN_SAMPLE_COUNT", false);
-        opt(&mut cmd, "o.ss", "sample-size", "DIVAN_SAMPLE_SIZE", false);
-        opt(&mut cmd, "o.th", "threads", "DIVAN_THREADS", false);
-        opt(&mut cmd, "o.maxt", "max-time", "DIVAN_MAX_TIME", true);
-        opt(&mut cmd, "o.mint", "min-time", "DIVAN_MIN_TIME", true);
-        opt(&mut cmd, "o.items", "items-count", "DIVAN_ITEMS_COUNT", false);
-        opt(&mut cmd, "o.bytes", "bytes-count", "DIVAN_BYTES_COUNT", false);
-        opt(&mut cmd, "o.chars", "chars-count", "DIVAN_CHARS_COUNT", false);
-        opt(&mut cmd, "o.cycles", "cycles-count", "DIVAN_CYCLES_COUNT", false);
+        opt(cmd, "o.sc", "sample-count", "DIVAN_SAMPLE_COUNT", false);
+        opt(cmd, "o.ss", "sample-size", "DIVAN_SAMPLE_SIZE", false);
+        opt(cmd, "o.th", "threads", "DIVAN_THREADS", false);
+        opt(cmd, "o.maxt", "max-time", "DIVAN_MAX_TIME", true);
+        opt(cmd, "o.mint", "min-time", "DIVAN_MIN_TIME", true);
+        opt(cmd, "o.items", "items-count", "DIVAN_ITEMS_COUNT", false);
+        opt(cmd, "o.bytes", "bytes-count", "DIVAN_BYTES_COUNT", false);
+        opt(cmd, "o.chars", "chars-count", "DIVAN_CHARS_COUNT", false);
+        opt(cmd, "o.cycles", "cycles-count", "DIVAN_CYCLES_COUNT", false);
         if let Some(v) = get("o.sk") {
             let v = if v == "1" { "true" } else { "false" };
             if via == "env" {
@@ -216,10 +224,16 @@ pub fn exec(_verb: &str, toks: &[&str]) -> String {
         cmd.arg(unhex(f));
     }
     cmd.stdin(Stdio::null()).stdout(Stdio::piped()).stderr(Stdio::piped());
-    let out = cmd.output().expect("spawn child");
+    act.to_string()
+}
+
+/// The observation of one child run; second component: the `@@` lines this
+/// function does not know (for labs with a richer child protocol).
+pub fn collect(out: &std::process::Output, act: &str) -> (String, Vec<String>) {
     let stdout = String::from_utf8_lossy(&out.stdout).to_string();
     let stderr = String::from_utf8_lossy(&out.stderr).to_string();
     let mut log = Vec::new();
+    let mut other = Vec::new();
     let mut evals = String::new();
     let mut done = false;
     let mut panic_msg = String::new();
@@ -232,8 +246,10 @@ pub fn exec(_verb: &str, toks: &[&str]) -> String {
                 cfg_dump = c.to_string();
             } else if let Some(e) = r.strip_prefix("E ") {
                 evals = e.split(' ').take_while(|_| true).collect::<Vec<_>>().join(":");
-            } else {
+            } else if r.starts_with("R ") {
                 log.push(r.replace(' ', ":"));
+            } else {
+                other.push(r.to_string());
             }
         } else if l.contains("panicked at") && panic_msg.is_empty() {
             panic_msg = l.to_string();
@@ -245,8 +261,11 @@ pub fn exec(_verb: &str, toks: &[&str]) -> String {
     let code = out.status.code().unwrap_or(-1);
     let canon = if act == "bench" || act == "benchapi" { canon_bench(&stdout) } else { stdout };
     // Only slots that were used matter; drop the trailing zeros.
-    let evals = evals.trim_end_matches(":0").to_string();
-    format!(
+    let mut evals = evals;
+    while evals.ends_with(":0") {
+        evals.truncate(evals.len() - 2);
+    }
+    let obs = format!(
         "X{}{} G{} O{} L{} E{}{}",
         code,
         if done { "" } else { "!" },
@@ -255,7 +274,8 @@ pub fn exec(_verb: &str, toks: &[&str]) -> String {
         if log.is_empty() { "-".to_string() } else { log.join(",") },
         if evals.is_empty() { "-" } else { &evals },
         if code != 0 && !panic_msg.is_empty() { format!(" P{}", hex(panic_msg.lines().nth(1).unwrap_or(""))) } else { String::new() }
-    )
+    );
+    (obs, other)
 }
 
 // ------------------------------------------------------------------ generator
@@ -471,7 +491,7 @@ impl Gen<'_> {
     }
 }
 
-fn config(rng: &mut Rng, act: &str, paths: &[String], bench_mode: bool) -> Vec<String> {
+pub fn config(rng: &mut Rng, act: &str, paths: &[String], bench_mode: bool) -> Vec<String> {
     let mut c = vec![format!("act={act}")];
     if rng.chance(2, 3) {
         c.push(format!("sort={}", ["kind", "name", "location"][rng.below(3) as usize]));
